@@ -6,13 +6,13 @@ import Strengths.Model.Validation
 namespace Strengths.Driver
 open Lean
 
-def getSpace (j : Json) : Except String Space := do
+def getVSpace (j : Json) : Except String VSpace := do
   match fieldOpt j "grid", fieldOpt j "graph" with
   | some g, _ => return .grid (← getShape g)
   | _, some n => return .graph (← getNat n)
   | _, _ => throw "space must be {grid:shape} or {graph:n}"
 
-def getPos (j : Json) : Except String Pos := do
+def getVPos (j : Json) : Except String VPos := do
   match fieldOpt j "p", fieldOpt j "xyz" with
   | some p, _ => return .num (← getInt p)
   | _, some c =>
@@ -75,17 +75,17 @@ def opValidate : Handler := fun j => do
       (← getNat (← field j "nenv")) (← getIntList (← field j "cell_env")))
   | "accessor" =>
     return resJson (fun (o : Option Int) => match o with | some i => intJson i | none => Json.null)
-      ((← getSpace (← field j "space")).accessorCheck (← getStr (← field j "accessor")) (← getPos (← field j "pos")))
-  | "cell_index" => return resJson intJson ((← getSpace (← field j "space")).cellIndex (← getPos (← field j "pos")))
+      ((← getVSpace (← field j "space")).accessorCheck (← getStr (← field j "accessor")) (← getVPos (← field j "pos")))
+  | "cell_index" => return resJson intJson ((← getVSpace (← field j "space")).cellIndex (← getVPos (← field j "pos")))
   | "state_index" =>
-    return resJson intJson (stateIndexOf (← getOptLabels (← field j "labels")) (← getSpace (← field j "space"))
-      (← getSpeciesRef (← field j "species")) (← getPos (← field j "pos")))
+    return resJson intJson (stateIndexOf (← getOptLabels (← field j "labels")) (← getVSpace (← field j "space"))
+      (← getSpeciesRef (← field j "species")) (← getVPos (← field j "pos")))
   | "set_entry" =>
     return resJson ratListJson (setEntry (← getRatList (← field j "arr")) (← getOptLabels (← field j "labels"))
-      (← getSpace (← field j "space")) (← getSpeciesRef (← field j "species")) (← getPos (← field j "pos")) (← getRat (← field j "v")))
+      (← getVSpace (← field j "space")) (← getSpeciesRef (← field j "species")) (← getVPos (← field j "pos")) (← getRat (← field j "v")))
   | "get_entry" =>
     return resJson ratJson (getEntry (← getRatList (← field j "arr")) (← getOptLabels (← field j "labels"))
-      (← getSpace (← field j "space")) (← getSpeciesRef (← field j "species")) (← getPos (← field j "pos")))
+      (← getVSpace (← field j "space")) (← getSpeciesRef (← field j "species")) (← getVPos (← field j "pos")))
   | "field" =>
     return resJson uvalJson (setField (← getStr (← field j "field")) (← getSys (← field j "sys")) (← getScalar (← field j "v")))
   | "field_dim" =>
